@@ -106,6 +106,7 @@ func (g *Goodbye) Unmarshal(rawPacket []byte) error {
 		g.Sources[i] = binary.BigEndian.Uint32(rawPacket[offset:])
 	}
 
+	g.Reason = ""
 	if reasonOffset < len(rawPacket) {
 		reasonLen := int(rawPacket[reasonOffset])
 		reasonEnd := reasonOffset + 1 + reasonLen
